@@ -251,23 +251,36 @@ def authValid (kind : Nat) (limit : Option Int) : Bool :=
     if kind = 2 then decide (0 < l ∧ l ≤ 100)
     else decide (0 < l ∧ 100 ≤ l)
 
+/-- what `Accept` subtracts from the limit: the update authorization only counts a positive top-up -/
+def authUsed (kind : Nat) (a : Int) : Int := if kind = 1 then (if 0 < a then a else 0) else a
+
+/-- `GetAuthorization` hides a grant whose expiry is before the block time -/
+def grantExpired (time : Nat) (g : Grant) : Bool :=
+  match g.exp with
+  | some e => decide (e < time)
+  | none => false
+
+/-- `SaveGrant` refuses an expiry that is not after the block time -/
+def grantUnsavable (time : Nat) (g : Grant) : Bool :=
+  match g.exp with
+  | some e => decide (e ≤ time)
+  | none => false
+
 /-- `utils.ValidateMsgAuthorization`: look the grant up, `Accept` the message, delete or save the grant.
-    `amount` is `TotalFunds` / `TopupFunds` / `Amount` of the message (nil = none). -/
+    `amount` is `TotalFunds` / `TopupFunds` / `Amount` of the message (nil = none → panic in GT / Sub). -/
 def authorize (time : Nat) (gs : List Grant) (granter grantee kind : Nat) (amount : Option Int) :
     Except Err (List Grant) :=
   match getGrant gs granter grantee kind with
   | none => .error .authzNotFound
   | some g =>
-    if (match g.exp with | some e => decide (e < time) | none => false) then .error .authzNotFound
+    if grantExpired time g then .error .authzNotFound
     else match amount with
-      | none => .error .panic          -- nil Int in GT / Sub
+      | none => .error .panic
       | some a =>
-        let used : Int := if kind = 1 then (if 0 < a then a else 0) else a
-        let left := g.limit - used
-        if left < 0 then .error .authzRejected
-        else if left = 0 then .ok (delGrant gs granter grantee kind)
-        else if (match g.exp with | some e => decide (e ≤ time) | none => false) then .error .authzSave
-        else .ok (setGrant gs { g with limit := left })
+        if g.limit - authUsed kind a < 0 then .error .authzRejected
+        else if g.limit - authUsed kind a = 0 then .ok (delGrant gs granter grantee kind)
+        else if grantUnsavable time g then .error .authzSave
+        else .ok (setGrant gs { g with limit := g.limit - authUsed kind a })
 
 /-! ## subaccount contract -/
 
@@ -567,12 +580,16 @@ def kycOk (k : Option (Bool × Bool × Bool)) : Bool :=
   | none => false
   | some (ign, appr, idm) => ign || (appr && idm)
 
-/-- amounts of a bet-bonus reward -/
+/-- bet amount that counts for a bet bonus: capped by a positive `MaxBetAmount` -/
+def effBet (c : Campaign) (betAmount : Int) : Int :=
+  match c.maxBet with
+  | some mb => if 0 < mb then minI mb betAmount else betAmount
+  | none => betAmount
+
+/-- amounts of a bet-bonus reward: (main, sub) = trunc(eff · percentage) -/
 def betAmounts (c : Campaign) (betAmount : Int) : Int × Int :=
-  let eff : Int := match c.maxBet with
-    | some mb => if 0 < mb then minI mb betAmount else betAmount
-    | none => betAmount
-  (((Dec.ofInt eff).mul c.amt.mainPct).truncInt, ((Dec.ofInt eff).mul c.amt.subPct).truncInt)
+  (((Dec.ofInt (effBet c betAmount)).mul c.amt.mainPct).truncInt,
+   ((Dec.ofInt (effBet c betAmount)).mul c.amt.subPct).truncInt)
 
 /-- the bet lookups of `BetBonusReward.Calculate` -/
 def betLookup (bets : List Bet) (uid receiver : Nat) : Option Bet :=
@@ -591,63 +608,100 @@ def noSignup (s : State) (promoterAddr referee : Nat) : Bool :=
   | none => true
   | some pa => countCat s.byCat pa.2 referee 1 == 0
 
-/-- `IRewardFactory.Calculate`: the receiver's reward amount, and the subaccount list after
-    `getSubaccountAddr` -/
+/-- the checks of `IRewardFactory.Calculate` before the subaccount is looked up / created -/
+def calcChecks (s : State) (c : Campaign) (m : GrantMsg) : Option Err :=
+  if !m.tv then some .calcTicket
+  else if !kycOk m.kyc then some .calcKyc
+  else if (c.rtype = 2 ∨ c.rtype = 3) ∧ !m.srcOk then some .calcSrc
+  else if (c.rtype = 4 ∨ c.rtype = 5) ∧ noSignup s c.promoter m.referee then some .calcNoRef
+  else if isSubAddr s.subs m.receiver then some .calcIsSub
+  else none
+
+/-- reward amount of the fixed-amount reward types: the campaign's amounts -/
+def fixedAmt (c : Campaign) : Amt :=
+  { main := c.amt.main, sub := c.amt.sub, unlock := c.amt.unlock, mainPct := Dec.zero, subPct := Dec.zero }
+
+/-- reward amount of a bet bonus -/
+def betAmt (c : Campaign) (b : Bet) : Amt :=
+  { main := (betAmounts c b.amount).1, sub := (betAmounts c b.amount).2, unlock := c.amt.unlock,
+    mainPct := c.amt.mainPct, subPct := c.amt.subPct }
+
+/-- `IRewardFactory.Calculate`: the subaccount list after `getSubaccountAddr` and the receiver's reward amount -/
 def calculate (s : State) (c : Campaign) (m : GrantMsg) : Except Err (List Sub × Amt) :=
-  if !m.tv then .error .calcTicket
-  else if !kycOk m.kyc then .error .calcKyc
-  else if (c.rtype = 2 ∨ c.rtype = 3) ∧ !m.srcOk then .error .calcSrc
-  else if (c.rtype = 4 ∨ c.rtype = 5) ∧ noSignup s c.promoter m.referee then .error .calcNoRef
-  else if isSubAddr s.subs m.receiver then .error .calcIsSub
-  else
-    let subs := ensureSub s.subs m.receiver
+  match calcChecks s c m with
+  | some e => .error e
+  | none =>
     if c.rtype = 8 then
       match betLookup s.bets m.bet m.receiver with
       | none => .error .calcBet
-      | some b =>
-        let (ma, sa) := betAmounts c b.amount
-        .ok (subs, { main := ma, sub := sa, unlock := c.amt.unlock, mainPct := c.amt.mainPct, subPct := c.amt.subPct })
-    else
-      .ok (subs, { main := c.amt.main, sub := c.amt.sub, unlock := c.amt.unlock, mainPct := Dec.zero, subPct := Dec.zero })
+      | some b => .ok (ensureSub s.subs m.receiver, betAmt c b)
+    else .ok (ensureSub s.subs m.receiver, fixedAmt c)
+
+/-- the grant counters after this grant (only campaigns with a cap count) -/
+def capStats (s : State) (c : Campaign) (receiver : Nat) : List Stat :=
+  if 0 < c.capCount then setStat s.stats c.uid receiver (getStat s.stats c.uid receiver + 1) else s.stats
+
+/-- the promoter configuration has a cap for this category that the receiver has already reached -/
+def catCapHit (byCat : List CatIdx) (p : Promoter) (category receiver : Nat) : Bool :=
+  p.conf.any (fun cc => cc.1 == category && decide (cc.2 ≤ (countCat byCat p.uid receiver category : Int)))
 
 /-- per-account cap of the campaign and per-category cap of the promoter; returns the counters and
     the promoter uid -/
 def grantCaps (s : State) (c : Campaign) (m : GrantMsg) : Except Err (List Stat × Nat) :=
   if 0 < c.capCount ∧ c.capCount ≤ getStat s.stats c.uid m.receiver then .error .cap
-  else
-    let stats := if 0 < c.capCount then setStat s.stats c.uid m.receiver (getStat s.stats c.uid m.receiver + 1) else s.stats
-    match getA s.byAddr c.promoter with
+  else match getA s.byAddr c.promoter with
     | none => .error .nopromoter
     | some pa =>
       match getP s.promoters pa.2 with
       | none => .error .nopromoter
       | some p =>
-        if p.conf.any (fun cc => cc.1 == c.category && decide (cc.2 ≤ (countCat s.byCat p.uid m.receiver c.category : Int)))
-        then .error .catcap
-        else .ok (stats, p.uid)
+        if catCapHit s.byCat p c.category m.receiver then .error .catcap
+        else .ok (capStats s c m.receiver, p.uid)
 
-/-- `DistributeRewards`: subaccount part through `TopUp` with a lock, main part through `Refund` -/
+/-- x/subaccount `TopUp` bookkeeping: deposited amount and the new lock -/
+def lockedTopUp (sb : Sub) (ts : Nat) (amt : Int) : Sub :=
+  { sb with deposited := sb.deposited + amt, locks := sb.locks ++ [(ts, amt)] }
+
+/-- `DistributeRewards`, subaccount part: `TopUp` from the pool with a lock -/
+def distSub (time : Nat) (bank : Bank) (subs : List Sub) (receiver : Nat) (a : Amt) : Except Err (Bank × List Sub) :=
+  if 0 < a.sub then
+    match getSub subs receiver with
+    | none => .error .distribute
+    | some sb =>
+      if hasLock sb (time + a.unlock) then .error .distribute
+      else match send bank POOL (SUBBASE + receiver) a.sub with
+        | .error _ => .error .distribute
+        | .ok b => .ok (b, setSub subs (lockedTopUp sb (time + a.unlock) a.sub))
+  else .ok (bank, subs)
+
+/-- `DistributeRewards`, main account part: `Refund` from the pool (a module account is a blocked recipient) -/
+def distMain (bank : Bank) (receiver : Nat) (a : Amt) : Except Err Bank :=
+  if 0 < a.main then
+    if receiver = POOL then .error .distribute
+    else match send bank POOL receiver a.main with
+      | .error _ => .error .distribute
+      | .ok b => .ok b
+  else .ok bank
+
+/-- `DistributeRewards` -/
 def distribute (time : Nat) (bank : Bank) (subs : List Sub) (receiver : Nat) (a : Amt) :
     Except Err (Bank × List Sub) :=
-  match (if 0 < a.sub then
-      match getSub subs receiver with
-      | none => .error .distribute
-      | some sb =>
-        if hasLock sb (time + a.unlock) then .error .distribute
-        else match send bank POOL (SUBBASE + receiver) a.sub with
-          | .error _ => .error .distribute
-          | .ok b => .ok (b, setSub subs { sb with
-                      deposited := sb.deposited + a.sub,
-                      locks := sb.locks ++ [(time + a.unlock, a.sub)] })
-    else .ok (bank, subs) : Except Err (Bank × List Sub)) with
+  match distSub time bank subs receiver a with
   | .error e => .error e
-  | .ok (b1, subs1) =>
-    if 0 < a.main then
-      if receiver = POOL then .error .distribute   -- SendCoinsFromModuleToAccount: blocked recipient
-      else match send b1 POOL receiver a.main with
-      | .error _ => .error .distribute
-      | .ok b2 => .ok (b2, subs1)
-    else .ok (b1, subs1)
+  | .ok r =>
+    match distMain r.1 receiver a with
+    | .error e => .error e
+    | .ok b => .ok (b, r.2)
+
+/-- the reward record, index entries and campaign pool written by a successful grant -/
+def grantBook (s : State) (c : Campaign) (m : GrantMsg) (a : Amt) (stats : List Stat) (puid : Nat)
+    (bank : Bank) (subs : List Sub) : State :=
+  { s with
+    bank := bank, subs := subs, stats := stats,
+    campaigns := setC s.campaigns { c with pool := { c.pool with spent := c.pool.spent + (a.main + a.sub) } },
+    rewards := s.rewards ++ [{ uid := m.uid, creator := m.creator, receiver := m.receiver, campaign := m.campaign, amt := a }],
+    byCat := s.byCat ++ [{ promoter := puid, addr := m.receiver, category := c.category, uid := m.uid }],
+    byCamp := s.byCamp ++ [(c.uid, m.uid)] }
 
 def grantReward (s : State) (m : GrantMsg) : Except Err State :=
   if (getR s.rewards m.uid).isSome then .error .dup
@@ -659,20 +713,14 @@ def grantReward (s : State) (m : GrantMsg) : Except Err State :=
       else if s.time < c.startTS then .error .notstarted
       else match calculate s c m with
         | .error e => .error e
-        | .ok (subs, a) =>
+        | .ok r =>
           match grantCaps s c m with
           | .error e => .error e
-          | .ok (stats, puid) =>
-            if c.pool.avail < a.main + a.sub then .error .pool
-            else match distribute s.time s.bank subs m.receiver a with
+          | .ok caps =>
+            if c.pool.avail < r.2.main + r.2.sub then .error .pool
+            else match distribute s.time s.bank r.1 m.receiver r.2 with
               | .error e => .error e
-              | .ok (bank, subs') =>
-                .ok { s with
-                      bank := bank, subs := subs', stats := stats,
-                      campaigns := setC s.campaigns { c with pool := { c.pool with spent := c.pool.spent + (a.main + a.sub) } },
-                      rewards := s.rewards ++ [{ uid := m.uid, creator := m.creator, receiver := m.receiver, campaign := m.campaign, amt := a }],
-                      byCat := s.byCat ++ [{ promoter := puid, addr := m.receiver, category := c.category, uid := m.uid }],
-                      byCamp := s.byCamp ++ [(c.uid, m.uid)] }
+              | .ok d => .ok (grantBook s c m r.2 caps.1 caps.2 d.1 d.2)
 
 /-! ## environment operations -/
 
